@@ -17,6 +17,8 @@ type retSite struct {
 	results []Term
 	st      *State
 	pos     token.Pos
+	blk     *ssa.BasicBlock
+	ins     ssa.Instruction
 }
 
 // atEntry assumes the preconditions.
@@ -163,6 +165,18 @@ func (v *FnVC) encodeCall(ins ssa.Instruction, c *ssa.CallCommon, res ssa.Value)
 	if name != "" {
 		contract = v.W.ContractFor(name)
 	}
+	origName := name
+	if c.IsInvoke() {
+		// caller-specialised contract of an interface method call: "<enclosing function>#<Method>$call" (what this
+		// caller may assume about the call given the objects it passes; may mention the caller's names; assumed)
+		for f := v.Fn; f != nil; f = f.Parent() {
+			n := fmt.Sprintf("%s#%s$call", f.String(), c.Method.Name())
+			if sc := v.W.ContractFor(n); sc != nil {
+				contract, name = sc, n
+				break
+			}
+		}
+	}
 	// Interior pointers (address of a struct field, of a slice element, of a non-escaping local) passed to the
 	// callee: the callee sees an object at that address. Materialise the current value there before the call
 	// and copy it back afterwards, so that the callee's contract speaks about the caller's storage.
@@ -180,7 +194,8 @@ func (v *FnVC) encodeCall(ins ssa.Instruction, c *ssa.CallCommon, res ssa.Value)
 		v.store(v.cur, view, v.load(v.cur, l))
 		mats = append(mats, mat{l, view})
 	}
-	v.checkCallAsserts(ins, name, fn, contract, sig, argTerms)
+	v.recordLabels(ins, origName)
+	v.checkCallAsserts(ins, origName, fn, contract, sig, argTerms)
 	v.checkFunArgs(ins, fn, args)
 	results := make([]Term, sig.Results().Len())
 	if contract != nil {
@@ -285,6 +300,8 @@ func (v *FnVC) applyContract(ins ssa.Instruction, contract *FuncContract, name s
 		for k, t := range v.baseEnv().vars {
 			env.vars[k] = t
 		}
+		blk := v.curBlock
+		env.lookupAt = func(n string, st *State) (Term, bool) { return v.localByNameAt(n, blk, ins, st) }
 	}
 	for k, n := range names {
 		env.vars[n] = args[k]
@@ -303,6 +320,9 @@ func (v *FnVC) applyContract(ins ssa.Instruction, contract *FuncContract, name s
 	for k, c := range contract.Requires {
 		if v.C != nil && v.C.File == "(literal scan)" {
 			break // functions visited only by the literal scan are not held to their callees' preconditions
+		}
+		if len(c.Props) > 0 && (v.C == nil || !hasAnyProp(c.Props, v.C.Props)) {
+			continue // prop-scoped precondition: not an obligation for callers outside the listed properties
 		}
 		f := v.evalBool(c.E, env)
 		v.oblige(fmt.Sprintf("pre:%s.%d", short, k), f, fmt.Sprintf("precondition of %s: %s", short, c.Text), ins.Pos())
@@ -327,6 +347,7 @@ func (v *FnVC) applyContract(ins ssa.Instruction, contract *FuncContract, name s
 	for k, t := range env.vars {
 		penv.vars[k] = t
 	}
+	penv.lookupAt = env.lookupAt
 	penv.vars["$allocPre"] = intT(pre.alloc)
 	for k := range results {
 		results[k] = v.havocVal("ret_"+short, sig.Results().At(k).Type())
@@ -962,7 +983,7 @@ func (v *FnVC) encodeReturn(i *ssa.Return) {
 	for _, r := range i.Results {
 		rs = append(rs, v.val(r))
 	}
-	v.rets = append(v.rets, retSite{guard: v.reach[v.curBlock], results: rs, st: v.cur, pos: i.Pos()})
+	v.rets = append(v.rets, retSite{guard: v.reach[v.curBlock], results: rs, st: v.cur, pos: i.Pos(), blk: v.curBlock, ins: i})
 }
 
 // atExit merges all return sites and checks postconditions, type invariants and the frame.
@@ -1028,6 +1049,39 @@ func (v *FnVC) atExit() {
 		if c.Kind == "defines" {
 			// names the function's result by uninterpreted spec functions: assumed at call sites (purity assumption), nothing to check here
 			v.assumedCallees[fmt.Sprintf("%s is a pure function of its arguments (defines: %s)", v.fnName(), c.Text)] = true
+			continue
+		}
+		if v.C.SplitReturns && len(v.rets) > 1 {
+			// one obligation per return statement, evaluated in that return's own state (no merge of the paths)
+			order := make([]int, len(v.rets))
+			for j := range order {
+				order[j] = j
+			}
+			sort.Slice(order, func(a, b int) bool { return v.rets[order[a]].pos < v.rets[order[b]].pos })
+			for ord, j := range order {
+				r := v.rets[j]
+				rb := &ssa.BasicBlock{}
+				v.reach[rb] = r.guard
+				v.curBlock = rb
+				renv := v.baseEnv()
+				renv.st = r.st
+				blk, ins := r.blk, r.ins
+				renv.lookupAt = func(name string, st *State) (Term, bool) { return v.localByNameAt(name, blk, ins, st) }
+				renv.vars["$allocPre"] = intT(v.entry.alloc)
+				for kk := range r.results {
+					t := r.results[kk]
+					t.T = sig.Results().At(kk).Type()
+					renv.vars[rn[kk]] = t
+					renv.vars[fmt.Sprintf("result%d", kk)] = t
+				}
+				if n == 1 {
+					renv.vars["result"] = renv.vars["result0"]
+				}
+				f := v.evalBool(c.E, renv)
+				o := v.oblige("ensures", f, c.Text, r.pos)
+				o.Name = fmt.Sprintf("%s/ensures#%d.ret%d", v.fnName(), k, ord)
+			}
+			v.curBlock = exitBlock
 			continue
 		}
 		f := v.evalBool(c.E, env)
@@ -1520,5 +1574,36 @@ func (v *FnVC) checkFunArgs(ins ssa.Instruction, fn *ssa.Function, args []ssa.Va
 			form = "false"
 		}
 		v.oblige(kind, form, fmt.Sprintf("contract of %s subsumes the $call contract of parameter %s of %s %s", shortCallee(af.String()), fn.Params[k].Name(), shortCallee(fn.String()), why), ins.Pos())
+	}
+}
+
+// recordLabels: "label L before <callee> [#k]" names the state immediately before a call; at(L, e) evaluates e there and
+// passed(L) is the condition that the call was reached.
+func (v *FnVC) recordLabels(ins ssa.Instruction, name string) {
+	if v.C == nil || len(v.C.Labels) == 0 || name == "" {
+		return
+	}
+	cf := v.W.Files[v.C.Pkg]
+	if cf == nil {
+		return
+	}
+	for _, lb := range v.C.Labels {
+		if v.W.canonName(lb.Callee, cf, v.Fn.Pkg.Pkg) != name {
+			continue
+		}
+		if lb.Ordinal >= 0 && v.callOrdinal(ins, name) != lb.Ordinal {
+			continue
+		}
+		if v.labelStates == nil {
+			v.labelStates = map[string]*State{}
+			v.labelGuards = map[string]string{}
+			v.labelSites = map[string][2]interface{}{}
+		}
+		if _, dup := v.labelStates[lb.C.Text]; dup {
+			v.fail("label %s matches more than one call (give an ordinal)", lb.C.Text)
+		}
+		v.labelStates[lb.C.Text] = v.cur.clone()
+		v.labelGuards[lb.C.Text] = v.reach[v.curBlock]
+		v.labelSites[lb.C.Text] = [2]interface{}{v.curBlock, ins}
 	}
 }
